@@ -3,7 +3,7 @@ C20 -- a count is independent of whatever was counted before it in the process.
 Relational monitor over process histories: renderings of a target election after a random history of other
 elections in this long-lived process must equal, byte for byte, the renderings from a fresh subprocess.
 """
-import os, sys, json, io, contextlib, subprocess
+import os, sys, json, io, time, contextlib, subprocess
 from .. import stream, gen, configs
 from ..harness import ElectionProfile, Election, REPO, cpu_budget, BudgetExceeded
 
@@ -226,6 +226,9 @@ def shard(ctx):
         ctx.count('targets')
         tcls = arith_class(topts)
         for h in range(6 if ctx.quick else 25):
+            if h >= 1 and time.monotonic() > ctx.deadline + 45:
+                ctx.count('histories_left_out_for_time')
+                break
             hist = []
             hist_cfg = []
             n = rng.randint(1, 12)
